@@ -429,10 +429,15 @@ def _c02_worker(args):
             else:
                 cnt("runs_aborted")
 
-        execute(sb, hist, on_run=on_run)
+        # blake3 is the only judge of "changed": every third history writes its files with mtimes that lie
+        # (older than the last run, far future, identical on both sides, sub-second apart)
+        mode = "mtimes" if idx % 3 == 2 else "plain"
+        if mode == "mtimes":
+            cnt("histories_with_hostile_mtimes")
+        execute(sb, hist, mode=mode, rng=SplitMix.derive(seedv, "c02mt", idx), on_run=on_run)
         res["evaluations"] += 1
         if nontrivial[0]:
-            res["distinct"].add(shape_of(hist))
+            res["distinct"].add(shape_of(hist) + ("|mt" if mode == "mtimes" else ""))
         for sig, det in found:
             det["history"] = hist_json(hist)
             det["history_index"] = idx
@@ -897,6 +902,65 @@ def c07_lossy_pair(wroot, rng, tag):
     return viol
 
 
+def c07_repointed_links(wroot, rng, tag):
+    """`bisync A B` where A and B are symbolic links: synced while they point at (x1, y1), then re-pointed
+    to (x2, y2) - a different pair of directories under the same two names. The recorded state belongs to
+    the first pair; the run on the second must not delete or overwrite on its strength."""
+    viol = []
+    root = os.path.join(wroot, "links%s" % tag)
+    rmtree(root)
+    home = os.path.join(root, "home")
+    os.makedirs(home)
+    d = {}
+    for nm in ("x1", "y1", "x2", "y2"):
+        d[nm] = os.path.join(root, nm)
+        os.makedirs(d[nm])
+    A, B = os.path.join(root, "A"), os.path.join(root, "B")
+    os.symlink("x1", A)
+    os.symlink("y1", B)
+    env = base_env(home)
+    shared = b"recorded content " + rng.bytes(4).hex().encode()
+    for nm in ("x1", "y1"):
+        write_file(os.path.join(d[nm], "report.txt"), shared)
+        write_file(os.path.join(d[nm], "notes"), b"notes v0")
+    r1 = run(["bisync", A, B], env)
+    if "Bidirectional sync complete" not in r1.stdout:
+        return None
+    which = rng.pick(["both", "A", "B"])
+    if which in ("both", "A"):
+        os.unlink(A)
+        os.symlink("x2", A)
+    if which in ("both", "B"):
+        os.unlink(B)
+        os.symlink("y2", B)
+    a_dir, b_dir = os.path.realpath(A), os.path.realpath(B)
+    one, other = (a_dir, b_dir) if rng.chance(1, 2) else (b_dir, a_dir)
+    # one side holds a file equal to the recorded content that the other side lacks; `notes` differs
+    write_file(os.path.join(one, "report.txt"), shared)
+    if os.path.exists(os.path.join(other, "report.txt")):
+        os.unlink(os.path.join(other, "report.txt"))
+    write_file(os.path.join(one, "notes"), b"notes v1 on one side")
+    write_file(os.path.join(other, "notes"), b"notes v2 on the other side")
+    pre = {"A": content_map(snapshot(a_dir)), "B": content_map(snapshot(b_dir))}
+    r2 = run(["bisync", A, B], env)
+    post = {"A": content_map(snapshot(a_dir)), "B": content_map(snapshot(b_dir))}
+    label = {"repointed": which, "run": r2.brief()}
+    for sd in "AB":
+        gone = sorted(p for p in pre[sd] if p not in post[sd])
+        if gone:
+            viol.append(("C07|path-removed|roots-are-links-repointed-to-another-pair", dict(label, side=sd, paths=gone)))
+    if "Bidirectional sync complete" in r2.stdout or r2.code == 1:
+        allA, allB = set(post["A"].values()), set(post["B"].values())
+        for sd in "AB":
+            for p, c in pre[sd].items():
+                if c not in allA or c not in allB:
+                    viol.append(("C07|version-not-on-both-sides|roots-are-links-repointed-to-another-pair", dict(label, side=sd, path=p)))
+    if "SAFE no-base mode" not in r2.stderr:
+        viol.append(("C07|no-safe-mode-banner|roots-are-links-repointed-to-another-pair", dict(label, stderr=r2.stderr[-200:])))
+    rmtree(root)
+    return viol
+
+
 def _c07_worker(args):
     seedv, lo, hi, wroot, sweep = args
     res = {"evaluations": 0, "distinct": set(), "viol": [], "counters": {}, "samples": [], "inconclusive": 0}
@@ -910,6 +974,13 @@ def _c07_worker(args):
             res["evaluations"] += 1
             cnt("runs[pair-differs-only-in-non-utf8-byte]")
             res["distinct"].add("lossy-pair|%d" % (lo % 5))
+            for sig, det in v:
+                res["viol"].append((sig, det))
+        v = c07_repointed_links(wroot, SplitMix.derive(seedv, "c07links", lo), "%d" % lo)
+        if v is not None:
+            res["evaluations"] += 1
+            cnt("runs[roots-are-links-repointed-to-another-pair]")
+            res["distinct"].add("repointed-links|%d" % (lo % 5))
             for sig, det in v:
                 res["viol"].append((sig, det))
     for idx in range(lo, hi):
@@ -992,6 +1063,11 @@ def c08_scenarios():
     S["delete-A"] = [("w", "A", "f", Z), ("w", "B", "f", Z), ("w", "A", "g", Y), ("w", "B", "g", Y), ("s",), ("d", "B", "f")]
     S["delete-B"] = [("w", "A", "f", Z), ("w", "B", "f", Z), ("w", "A", "g", Y), ("w", "B", "g", Y), ("s",), ("d", "A", "f")]
     S["conflict-both-changed"] = [("w", "A", "f", Z), ("w", "B", "f", Z), ("s",), ("w", "A", "f", b"a-edit"), ("w", "B", "f", b"b-edit")]
+    # the earlier conflict-copy was edited by the user, then the old loser comes back against fresh content
+    # (it loses again for about half of the fresh contents): the run under test needs a numbered copy name
+    for side in "AB":
+        for fresh in (b"n1", b"n2", b"n3", b"n4"):
+            S["repeat-conflict-after-edited-copy-%s-%s" % (side, fresh.decode())] = [("w", "A", "f", b"base"), ("w", "B", "f", b"base"), ("s",), ("w", "A", "f", b"a1"), ("w", "B", "f", b"b1"), ("s",), ("wc", side, 0, b"user-edited-conflict-copy"), ("rc", side, 0, fresh)]
     S["delete-vs-modify"] = [("w", "A", "f", Z), ("w", "B", "f", Z), ("s",), ("d", "A", "f"), ("w", "B", "f", b"b-mod")]
     S["first-run-no-archive"] = [("w", "A", "only-a", Z), ("w", "B", "only-b", Y), ("w", "A", "both", b"a"), ("w", "B", "both", b"b"), ("w", "A", "same", Z), ("w", "B", "same", Z)]
     S["five-paths"] = [("w", "A", "p1", b"1"), ("w", "B", "p1", b"1"), ("w", "A", "p2", b"2"), ("w", "B", "p2", b"2"), ("w", "A", "p3", b"3"), ("w", "B", "p3", b"3"), ("w", "A", "p4", b"4"), ("w", "B", "p4", b"4"), ("s",), ("w", "A", "p1", b"1a"), ("w", "B", "p2", b"2b"), ("d", "A", "p3"), ("w", "A", "p4", b"4a"), ("w", "B", "p4", b"4b"), ("w", "B", "d/p5", b"5")]
@@ -1066,7 +1142,9 @@ def _c08_worker(args):
         lc = {}
         for st in setup:
             if st[0] == "s":
+                pre_s = sb.snaps()
                 r = bisync(sb)
+                note_losers(sb, pre_s, sb.snaps())
                 if completed(r):
                     sn = sb.snaps()
                     ca, cb = content_map(sn["A"]), content_map(sn["B"])
